@@ -44,7 +44,9 @@ type Attr struct {
 type capA struct{ X int }
 type capB struct{ Y string }
 
-var Caps = []cty.Type{cty.Capsule("capA", reflect.TypeOf(capA{})), cty.Capsule("capB", reflect.TypeOf(capB{}))}
+// the third is a twin of the first: same name, same native type, separately created (capsule types are
+// identified by identity, not by structure)
+var Caps = []cty.Type{cty.Capsule("capA", reflect.TypeOf(capA{})), cty.Capsule("capB", reflect.TypeOf(capB{})), cty.Capsule("capA", reflect.TypeOf(capA{}))}
 
 // Names is an alphabet of NFC-stable attribute names (ASCII and precomposed/multi-byte).
 var Names = []string{"a", "b", "c", "id", "name", "é", "ß", "日本", "x_1", "Z", "bell\a", "del\x7f", "q\"uote", "nl\n", "\x01"}
